@@ -108,7 +108,7 @@ func Harness_cancel() {
 	}
 	e := env.NewSubordinateEnv(Base)
 	v, err := lisp.EVAL(cur, prog, e)
-	vrt.Observe("ticks", ticks)
+	vrt.Observe("~ticks", ticks) // ~: depends on real time natively, not compared with the engine
 	vrt.Assert(cur.closed, "evaluation of a non-terminating program returned before the context was cancelled")
 	vrt.Assert(err != nil, "a cancelled evaluation returned a value instead of a timeout error")
 	_ = v
@@ -123,7 +123,7 @@ func Harness_cancel() {
 			slack = 1 << 30
 		}
 	}
-	vrt.Observe("afterClose", afterClose)
+	vrt.Observe("~afterClose", afterClose)
 	vrt.Assert(afterClose <= 1+nest+slack, "evaluation went on iterating after the context had been cancelled")
 	vrt.Reach("end")
 }
